@@ -106,6 +106,22 @@ fn shape_mixed_nested_operator(toks: &[&str]) -> bool {
     false
 }
 
+/// The runner keeps at most 200 violations per run: record only the first few witnesses of each
+/// *known* finding so that they can never crowd out a new one (all of them are still counted).
+static KNOWN_SEEN: [std::sync::atomic::AtomicUsize; 2] = [std::sync::atomic::AtomicUsize::new(0), std::sync::atomic::AtomicUsize::new(0)];
+const KNOWN_KEEP: usize = 40;
+
+fn report(obs: &mut Obs, kind: &str, case: &str, detail: &str) {
+    let slot = match kind { "roundtrip-param-scalar" => Some(0), "roundtrip-mixed-nested-operator" => Some(1), _ => None };
+    if let Some(i) = slot {
+        if KNOWN_SEEN[i].fetch_add(1, std::sync::atomic::Ordering::Relaxed) >= KNOWN_KEEP {
+            obs.count(&format!("known-finding-not-listed-again:{}", kind));
+            return;
+        }
+    }
+    obs.violation(kind, case, detail);
+}
+
 fn oracle(_input: &[u8], t1: &str, out: &[u8], ic: u8, fac: u8, rt: bool, case: &str, obs: &mut Obs) {
     let toks: Vec<&str> = t1.split(',').collect();
     let has_mixed_object = toks.iter().any(|t| t.starts_with("Om"));
@@ -120,13 +136,13 @@ fn oracle(_input: &[u8], t1: &str, out: &[u8], ic: u8, fac: u8, rt: bool, case: 
     };
     match TextTape::from_slice(out) {
         Err(e) => {
-            if rt { obs.violation(kind("roundtrip-output-does-not-parse"), case, &format!("{} {:?}", hex(out), e)); return; }
+            if rt { report(obs, kind("roundtrip-output-does-not-parse"), case, &format!("{} {:?}", hex(out), e)); return; }
             else { obs.count("garbage:output-does-not-parse"); }
         }
         Ok(tape2) => {
             let t2 = show::text_tape(tape2.tokens());
             if t2 != t1 {
-                if rt { obs.violation(kind("roundtrip"), case, &format!("written {} parses to {}", hex(out), t2)); return; }
+                if rt { report(obs, kind("roundtrip"), case, &format!("written {} parses to {}", hex(out), t2)); return; }
                 obs.count(if has_mixed_object { "not-preserved:mixed-object" } else if w1 { "not-preserved:param-scalar(known)" } else if w2 { "not-preserved:mixed-nested-operator(known)" } else { "garbage:not-preserved" });
             } else {
                 obs.count(if rt { "roundtrip-ok" } else { "other-roundtrip-ok" });
@@ -135,11 +151,11 @@ fn oracle(_input: &[u8], t1: &str, out: &[u8], ic: u8, fac: u8, rt: bool, case: 
             match write_with(&tape2, ic, fac) {
                 Ok(out2) => {
                     if out2 != out {
-                        if rt { obs.violation(kind("idempotent"), case, &format!("first {} second {}", hex(out), hex(&out2))); return; }
+                        if rt { report(obs, kind("idempotent"), case, &format!("first {} second {}", hex(out), hex(&out2))); return; }
                         else { obs.count("garbage:not-idempotent"); }
                     } else { obs.count("idempotent-ok"); }
                 }
-                Err(e) => { if rt { obs.violation(kind("idempotent"), case, &format!("second write fails {}", e)); return; } }
+                Err(e) => { if rt { report(obs, kind("idempotent"), case, &format!("second write fails {}", e)); return; } }
             }
         }
     }
@@ -151,7 +167,7 @@ fn oracle(_input: &[u8], t1: &str, out: &[u8], ic: u8, fac: u8, rt: bool, case: 
                 if (c, f) == (ic, fac) { continue; }
                 match write_with(&tape, c, f).ok().and_then(|o| TextTape::from_slice(&o).ok().map(|t| show::text_tape(t.tokens()))) {
                     Some(t) if t == t1 => {}
-                    other => { obs.violation(kind("roundtrip-indent-config"), case, &format!("indent {} x{}: {:?}", c, f, other)); return; }
+                    other => { report(obs, kind("roundtrip-indent-config"), case, &format!("indent {} x{}: {:?}", c, f, other)); return; }
                 }
             }
         }
